@@ -511,6 +511,17 @@ func (c *ctx) mutate(idx int, specs []lzwork.Spec, mode string) {
 		}
 		// the untouched stream, under every combination
 		c.all(name+":valid", s, crc)
+		// the same valid stream from a source that fails ONCE (a transient error at byte k) and then carries
+		// on: whatever the Reader makes of it, success from Close still means the canonical bytes were read
+		// (the bit reader's error is sticky: a swallowed error must not turn into silently wrong data)
+		vv := refVerdict(s, crc)
+		for j := 0; j < 16 && len(s) > 8; j++ {
+			k := 1 + (j*(len(s)-2))/16 + j%3
+			rp := bufPlans[j%len(bufPlans)]
+			rp.Seed = c.seed + int64(j)
+			c.exec(fmt.Sprintf("%s:transient-source-error@%d", name, k), s, crc, vv, lzwork.Source{Kind: "transient", K: k}, rp, -1)
+			c.o.Count("transient_source_error_runs", 1)
+		}
 		// (a) truncations
 		for _, k := range positions(len(s)) {
 			c.one(fmt.Sprintf("%s:truncated-to-%d", name, k), s[:k], crc)
